@@ -88,6 +88,8 @@ type Server struct {
 	// LuaErrors collects constructs the mini Lua interpreter could not run (harness errors)
 	LuaErrors []string
 	// Hold, if set, may return a channel; the reply is written only after it is closed.
+	// Gate, when set, may return a channel the request waits on before it is received (counted, logged, executed)
+	Gate func(connID int, name string, args [][]byte) <-chan struct{}
 	Hold func(connID int, name string, args [][]byte) <-chan struct{}
 	// RestoreDecoder turns a RESTORE payload into a value (nil, error text on failure)
 	RestoreDecoder func(key []byte, payload []byte) (*Value, string)
@@ -208,8 +210,15 @@ func (s *Server) serve(c *conn) {
 			continue
 		}
 		name := strings.ToLower(string(args[0]))
+		if s.Gate != nil {
+			// a request held back before it is looked at: it has not happened yet for anybody
+			if ch := s.Gate(c.id, name, args[1:]); ch != nil {
+				<-ch
+			}
+		}
 		s.mu.Lock()
-		if s.Crashed {
+		if s.Crashed || s.conns[c.id] != c {
+			// the connection died in a crash while this request was still on its way
 			s.mu.Unlock()
 			return
 		}
@@ -218,13 +227,39 @@ func (s *Server) serve(c *conn) {
 			s.mu.Unlock()
 			return
 		}
+		gseq := int64(0)
+		if s.Cluster != nil {
+			if s.Cluster.GCrashed.Load() {
+				s.crashLocked()
+				s.mu.Unlock()
+				return
+			}
+			gseq = s.Cluster.GSeq.Add(1)
+			gw := gseq
+			if s.Cluster.GCount != nil {
+				gw = s.Cluster.GW.Load()
+				if s.Cluster.GCount(name) {
+					gw = s.Cluster.GW.Add(1)
+				}
+			}
+			if lim := s.Cluster.GCrashAfter.Load(); lim >= 0 && gw > lim {
+				s.Cluster.GCrashed.Store(true)
+				s.crashLocked()
+				s.mu.Unlock()
+				return
+			}
+		}
 		s.Recv++
 		if s.RealClock {
 			s.NowMs = time.Now().UnixMilli()
 		}
 		s.NowMs += s.ClockStepMs
 		if s.KeepRaw {
-			s.Raw = append(s.Raw, Entry{Seq: s.Recv, Conn: c.id, DB: c.db, Name: name, Args: args[1:], InMulti: c.inMulti})
+			e := Entry{Seq: s.Recv, Conn: c.id, DB: c.db, Name: name, Args: args[1:], InMulti: c.inMulti}
+			if s.Cluster != nil {
+				e.Seq = int(gseq)
+			}
+			s.Raw = append(s.Raw, e)
 		}
 		var reply interface{}
 		act := Proceed
